@@ -325,7 +325,7 @@ fn text_formats(rep: &Report) {
                     let mut xc: Vec<xlsx::XCell> = cells.iter().map(|(p, f)| { let mut c = xlsx::XCell::new(p.0, p.1, xlsx::XVal::Num("1".into())); c.formula = Some(xlsx::XFormula::Plain(f.clone())); c }).collect();
                     xc.push(xlsx::XCell::new(plain.0, plain.1, xlsx::XVal::Num("5".into())));
                     xlsx::write(&xlsx::XBook { sheets: vec![xlsx::XSheet::new("S", xc)], ..Default::default() }, &xlsx::XEnc { prefix: mask % 2 == 0,
-                        split_text_nodes: mask % 5 == 4, rows_never_r: mask % 7 == 3, cell_r: if (mask + ti as u32) % 3 == 1 { xlsx::RMode::Implicit } else { xlsx::RMode::Explicit }, row_r: if (mask + ti as u32) % 3 == 2 { xlsx::RMode::Implicit } else { xlsx::RMode::Explicit }, ..Default::default() })
+                        split_text_nodes: mask % 5 == 4, rows_never_r: mask % 7 == 3, extras: mask % 3 == 2, comments: mask % 11 == 5, cell_r: if (mask + ti as u32) % 3 == 1 { xlsx::RMode::Implicit } else { xlsx::RMode::Explicit }, row_r: if (mask + ti as u32) % 3 == 2 { xlsx::RMode::Implicit } else { xlsx::RMode::Explicit }, ..Default::default() })
                 } else {
                     let maxr = cells.iter().map(|c| c.0 .0).max().unwrap().max(plain.0);
                     let mut rows = vec![];
